@@ -549,6 +549,29 @@ Fixpoint configure_sessions (s : state) (ns : list lneighbor) : res :=
     end
   end.
 
+(* Instrument for the correspondence check (not used by the configurator): the keys of the
+   sessions a run of configure_sessions replaces (dispose + add) instead of updating in place. *)
+Definition session_restarts (s : state) (n : lneighbor) : list key :=
+  match determine_vrf (s_vrfs s) n with
+  | None => []
+  | Some v =>
+    match get_peer_config s (v, ln_addr n) with
+    | Some oldc => if needs_restart oldc (new_peer_config (s_rid s) v n) then [(v, ln_addr n)] else []
+    | None => []
+    end
+  end.
+
+Fixpoint restarted_keys (s : state) (ns : list lneighbor) : list key :=
+  match ns with
+  | [] => []
+  | n :: r =>
+    session_restarts s n ++
+    match configure_session s n with
+    | Ok s1 => restarted_keys s1 r
+    | _ => []
+    end
+  end.
+
 (* peerExistsInConfig *)
 Definition peer_exists_in_config (vs : list (positive * N)) (ns : list lneighbor) (k : key) : bool :=
   existsb (fun n => match determine_vrf vs n with
@@ -596,6 +619,15 @@ Definition reload (s : state) (c : config) : outcome :=
     | Err s1 => ApplyErr s1
     | Panicked => Crashed
     end
+  end.
+
+(* Instrument: the sessions that existed before the reload and were restarted by it *)
+Definition reload_restarts (s : state) (c : config) : list key :=
+  match load c with
+  | None => []
+  | Some l =>
+    filter (fun k => is_some (lookup k (s_peers s)))
+           (restarted_keys (fold_left configure_ri (l_ris l) s) (l_nbrs l))
   end.
 
 (* main(): the BGP server gets the router id of the start configuration *)
